@@ -55,16 +55,16 @@ fn pre_logs(n: usize, mut rest: Vec<Op>) -> Vec<Op> {
 
 pub fn c02_configs(tier: Tier) -> Vec<(Cfg, usize)> {
     let mut v = Vec::new();
-    let d = if tier == Tier::Quick { 3 } else { 4 };
+    let d = 4;
     // from empty
     let mut c = Cfg::base("c02-empty", 20, 40);
     c.vt = true;
-    v.push((c, d + 1));
+    v.push((c, if tier == Tier::Quick { d } else { d + 1 }));
     // two bars drawn, alignment ops
     let mut c = Cfg::base("c02-two-drawn-align", 20, 40);
     c.root = pre_logs(1, two_drawn());
     c.align = true;
-    v.push((c, if tier == Tier::Quick { d + 1 } else { d }));
+    v.push((c, d));
     // empty and multi-line printed lines among three drawn bars
     let mut c = Cfg::base("c02-odd-logs", 20, 40);
     c.root = pre_logs(1, vec![Op::Add, Op::Add, Op::Add, Op::Tick(0), Op::Tick(1), Op::Tick(2)]);
